@@ -711,6 +711,60 @@ def replay_C19(ctx):
     return check_C19(ctx)
 
 
+def check_C11(ctx):
+    pr = proof_stage(ctx, "Properties/C11.v")
+    cov_from_proof(ctx, pr, ["Pub/*.v (every function of the model; `Panic site` results mark nil dereferences of the Go code), Proofs/TotalProofs.v",
+                             "modelled, not verified: the generated decoders of package streams (streams.ToType and the value deserialisers) are only exercised by the hostile-input harness; their totality is not a theorem here (C01 / C12 model parts of them); that the model's Panic sites are all the places where the Go code can dereference nil is tied by replay (a real panic is a result the model never produces) and by the hostile-input runs",
+                             "termination: the model programs are structurally recursive Gallina functions with the configured depths as fuel; a Go-level hang is caught only by the watchdog of the harness"])
+    found = False
+    okb, outb = harness_build(ctx)
+    if not okb:
+        ctx.violation("C11:harness-build", "harness does not build against the tree", {"kind": "build", "output": outb[-3000:], "unchecked": "correspondence C11"}, nofail=True)
+        return finish(ctx, "proof")
+    rc, out, summ = harness_run(ctx, ["c11"], timeout=6000)
+    cov_from_summary(ctx, summ)
+    if rc != 0 or summ is None:
+        cur = os.path.join(ctx.rundir, "current.json")
+        if os.path.exists(cur) and ("fatal error" in out or "stack overflow" in out or "goroutine stack exceeds" in out):
+            try:
+                inp = json.load(open(cur))
+            except Exception:
+                inp = None
+            ctx.violation("C11:fatal:%s" % ((inp or {}).get("family", "?")), "the Go runtime died (fatal error / stack overflow: unbounded recursion) while handling this input",
+                          {"kind": "fatal", "input": inp, "output": out[-2500:]})
+        else:
+            ctx.violation("C11:harness-run", "the hostile-input harness failed", {"kind": "harness", "output": out[-3000:], "unchecked": "correspondence C11"}, nofail=True)
+        return finish(ctx, "proof")
+    for v in summ.get("violations", []):
+        if ctx.violation(v["signature"], v["what"], {"kind": "direct", "replay": v["replay"]}):
+            found = True
+    # the standard replayed run: a real panic is a result the model (by the theorems) never has
+    r1 = pub_run(ctx, "std", PUB_STD[ctx.tier])
+    if "error" in r1:
+        ctx.violation("C11:%s" % r1["error"], "the correspondence run could not be performed", {"kind": r1["error"], "output": r1.get("out", "")[-3000:], "unchecked": "correspondence C11"}, nofail=True)
+        return finish(ctx, "proof")
+    runs = r1["runs"]
+    npanic = 0
+    for i, r in enumerate(runs):
+        if r["result"] == "panic":
+            npanic += 1
+            if ctx.violation("C11:panic:%s:%s" % (r["family"], (r.get("panic") or "")[:60]), "%s (faults %s) panics: %s" % (r["family"], r["faults"], r.get("panic")), {"kind": "run", "index": i, "run": r}):
+                found = True
+    bad = [(i, f) for (i, f) in r1["defs"].get("replay_bad", []) if f[0] == "1"]
+    ctx.coverage["traces_validated_against_impl"] = len(runs) - len(r1["defs"].get("replay_bad", []))
+    ctx.coverage["disagreements"] = {"panics_in_replayed_runs": npanic, "result_disagreements": len(bad), "hostile_runs": summ.get("evaluations", 0)}
+    if bad and not found:
+        i, f = bad[0]
+        ctx.violation("C11:replay-drift", "the result of a recorded run differs from the model's", {"kind": "correspondence", "projection": "C11 results", "index": i, "detail": f, "run": runs[i]}, nofail=True)
+    if not pr["built"] and not found:
+        ctx.violation("C11:proof:%s" % pr.get("broken_lemma"), "theorem no longer checks", {"kind": "proof", "file": pr.get("broken_file"), "theorem": pr.get("broken_lemma"), "error": (pr.get("error") or pr.get("out", ""))[-3000:]}, nofail=True)
+    return finish(ctx, "proof")
+
+
+def replay_C11(ctx):
+    return check_C11(ctx)
+
+
 def check_C03(ctx):
     def classify(name, fields, run):
         return ("C03:%s:%s" % (run["family"].split(":")[0], "payload" if "payload" in fields[1] else "body"), "%s (faults %s): %s" % (run["family"], run["faults"], fields[1]))
